@@ -311,8 +311,10 @@ class Aggregate(object):
             'violations': len(unlisted),
             'verdict': 'violated' if rc == 1 else ('inconclusive' if rc == 2 else 'held on what was observed'),
         }
-        os.makedirs(os.path.join(VERIF, 'evidence'), exist_ok=True)
-        with open(os.path.join(VERIF, 'evidence', prop_id + '.json'), 'w') as f:
+        # (tools/try_seeded.sh points this elsewhere: evidence of a run against a deliberately broken tree is not kept)
+        evdir = os.environ.get('VERIF_EVIDENCE_DIR') or os.path.join(VERIF, 'evidence')
+        os.makedirs(evdir, exist_ok=True)
+        with open(os.path.join(evdir, prop_id + '.json'), 'w') as f:
             json.dump(ev, f, indent=1, default=repr, sort_keys=False)
         print('%s tier=%s seed=%d: %d executions, %d held, %d inconclusive, %d violations (%d known), '
               '%d distinct non-trivial cases, %.1fs -> %s'
